@@ -13,6 +13,11 @@ WALL_MODES = ["jump", "back", "fwd", "frozen"]
 
 def _one(ctx, sc, entry, stats, rng, sample=False):
     m1 = rng.choice(WALL_MODES)
+    jseed = rng.randrange(1 << 30)
+    if sc["cfg"].get("builtin_strategies"):
+        import random as _random
+
+        _random.seed(jseed)  # the library's jittered strategies draw from the global generator: same draws in both runs of the pair
     recs, h, w = rig.run(sc, entry, wall_seed=rng.randrange(1 << 30), wall_mode=m1)
     ctx.inc("runs")
     ctx.inc("calls", len(recs))
@@ -56,6 +61,8 @@ def _one(ctx, sc, entry, stats, rng, sample=False):
             ctx.add_hash("nontrivial", [sc["cfg"]["deadline_s"], rec.env["durations"], rec.env["overshoot"], [repr(x) for x in rec.env["strat_values"]], entry])
     # differential: same scenario, different hostile wall clock -> identical trace
     m2 = rng.choice([m for m in WALL_MODES if m != m1])
+    if sc["cfg"].get("builtin_strategies"):
+        _random.seed(jseed)
     recs2, _, w2 = rig.run(sc, entry, wall_seed=rng.randrange(1 << 30), wall_mode=m2)
     ctx.inc("wall_differentials")
     for a, b in zip(recs, recs2):
@@ -111,6 +118,17 @@ def work(ctx, tier):
                     c["handler"] = None
                     c["abort_at"] = None
                 sc["place"]["handler"] = "none"
+        if k % 6 == 1:
+            # the library's own strategy factories, registered as they are, with a base delay of the order of the deadline: the delay
+            # the engine requests is the factory's answer clamped to the remaining time, whoever wrote the strategy
+            D = sc["cfg"]["deadline_s"]
+            D = D if D < 100 else 4.0
+            base = D * rng.choice([0.25, 0.5, 1.0, 3.0])
+            names = (["default"] if sc["cfg"].get("default_strategy", True) else []) + list(sc["cfg"].get("class_strategies", ()))
+            names = [x for x in names if x not in sc["cfg"].get("legacy", ()) and x not in sc["cfg"].get("strategy_objects", ())]
+            if names:
+                sc["cfg"]["builtin_strategies"] = {x: (rng.choice(["equal_jitter", "decorrelated_jitter", "token_backoff"]), base, base * 4.0) for x in names if rng.random() < 0.8}
+                ctx.inc("scenarios_with_builtin_strategy_factories", 1 if sc["cfg"]["builtin_strategies"] else 0)
         if k % 6 == 4:
             # the abort predicate's first evaluation - before attempt 1 - takes time: the envelope is measured from the start of the call
             sc["poll"] = True
